@@ -26,9 +26,38 @@ func runC16(e *Engine, r *Report) {
 			{"(*internal/server.SSEnv).RemoveFlagFile", "flag removal"},
 		}
 		var sites [][]ssa.CallInstruction
-		for _, st := range steps {
+		exportedFn := e.Func("(*internal/rsm.SSRequest).Exported")
+		if exportedFn == nil {
+			exportedFn = e.Func("(internal/rsm.SSRequest).Exported")
+		}
+		for si, st := range steps {
 			f := r.need(st.fn)
-			sites = append(sites, e.SitesIn(commit, f))
+			ss := e.SitesIn(commit, f)
+			if f != nil {
+				// the step may be wrapped in a small helper of the same package that
+				// performs it on every path (for the log-store record: on every path
+				// except the exported-snapshot one)
+				isF := func(in ssa.Instruction) bool {
+					c, ok := in.(*ssa.Call)
+					return ok && e.CallsTo(c, f)
+				}
+				forEachCall(commit, func(c ssa.CallInstruction) {
+					g := c.Common().StaticCallee()
+					if g == nil || g == f || fnPkg(g) != fnPkg(commit) || len(e.SitesIn(g, f)) == 0 {
+						return
+					}
+					var res PathResult
+					if si == 2 && exportedFn != nil {
+						res = e.pathUnless(g, nil, func(in ssa.Instruction) bool { return e.isSuccessReturn(in) }, isF, reqBool("exported", e.callV(exportedFn), true))
+					} else {
+						res = e.findPath(g, nil, func(in ssa.Instruction) bool { return e.isSuccessReturn(in) }, isF, nil)
+					}
+					if !res.Found {
+						ss = append(ss, c)
+					}
+				})
+			}
+			sites = append(sites, ss)
 		}
 		for i := 1; i < len(steps); i++ {
 			for _, s := range sites[i] {
